@@ -1,5 +1,5 @@
 """C35 — the data recorder persists every entry exactly once (spec/recorder/Recorder.tla, RecorderAbs.tla, RecorderTrace.tla)."""
-import collections, concurrent.futures, glob, json, os, tempfile, threading
+import collections, concurrent.futures, glob, json, os, random, tempfile, threading
 from vlib import core, tracecheck
 
 LEVEL = "model_checking"
@@ -120,7 +120,7 @@ def interleaved(lines):
 PREDICT = {"ok": "ok", "dropped": "lost", "unflushed_at_close": "lost", "panic": "panic_nested_transaction"}
 
 
-def pick(ck, cases, quota):
+def pick(rng, cases, quota):
     """Seeded sample of model behaviours, stratified by (outcome, batch size, number of wait situations) so that rare classes are all kept."""
     groups = collections.defaultdict(list)
     for c in cases:
@@ -128,7 +128,7 @@ def pick(ck, cases, quota):
     out = []
     todo = sorted(groups.values(), key=len)
     for i, g in enumerate(todo):
-        ck.rng.shuffle(g)
+        rng.shuffle(g)
         share = max(1, (quota - len(out)) // (len(todo) - i))
         out += g[:share]
     return out
@@ -345,35 +345,38 @@ def run(ck):
     if not q:
         jobs.append(pool.submit(free, ck, "free-race", 150, race=True, budget=150, single_every=12))
     # 1. the model: the lock scope the code has satisfies the statement; the scope it had before the repair is the negative control
-    fh = pool.submit(Locked(ck).run_tlc, ["recorder"], "Recorder", "Recorder_hyp.cfg", workers=1, timeout=3000)
-    cfgs = ([("Recorder_q.cfg", 3), ("Recorder_q2.cfg", 2), ("Recorder_q3.cfg", 6)] if q else
-            [("Recorder_t.cfg", 6), ("Recorder_t2.cfg", 6), ("Recorder_t3.cfg", 4), ("Recorder_t4.cfg", 4)])
-    fms = [pool.submit(Locked(ck).run_tlc, ["recorder"], "Recorder", cfg, workers=w, timeout=3000) for cfg, w in cfgs]
-    cases = []
-    for (cfg, _), fm in zip(cfgs, fms):
-        r = fm.result()
+    # 2. B3: as soon as a model run is through, its schedules go to the real recorder; seeded random gate schedules start at once
+    nb, ng = (50, 130) if q else (200, 800)
+    cfgs = ([("Recorder_q.cfg", 3), ("Recorder_q2.cfg", 2), ("Recorder_q3.cfg", 3)] if q else
+            [("Recorder_t.cfg", 6), ("Recorder_t2.cfg", 3), ("Recorder_t3.cfg", 3), ("Recorder_t4.cfg", 5)])
+    pred = collections.Counter()
+
+    def model_and_replay(k, cfg, workers):
+        r = Locked(ck).run_tlc(["recorder"], "Recorder", cfg, workers=workers, timeout=3000)
         if not r.ok:
             raise core.Broken("Recorder.tla (%s) violates %s %s — the model of the recorder does not satisfy the statement: it has drifted from "
                               "the code, or the code's lock scope no longer guarantees it; inspect" % (cfg, r.violated, r.error))
-        cases.append(r.tagged["CASE"])
-    h = fh.result()
-    if h.ok or h.violated != "AllPersistedOnce":
-        raise core.Broken("negative control failed: TLC did not refute AllPersistedOnce for the lock scope the recorder had before the repair "
-                          "(Flush without the mutex): ok=%s violated=%s %s" % (h.ok, h.violated, h.error))
-    pred = collections.Counter(c["outcome"] for cs in cases for c in cs)
-    ck.cov["model_final_states"] = dict(pred)
-    ck.note("model (mutex held across the flush): %d distinct (final state, wait situations) %s; negative control (Flush without the mutex): "
-            "AllPersistedOnce refuted by TLC" % (sum(pred.values()), dict(pred)))
-    # 2. B3: distinct final states' schedules on the real recorder, then seeded random gate schedules
-    nb, ng = (50, 130) if q else (200, 1000)
-    for k, cs in enumerate(cases):
+        cs = r.tagged["CASE"]
         tabs = sorted({s["t"] for c in cs for s in c["sched"] if s["l"] == "ins"})
-        chosen = pick(ck, [c for c in cs if c["outcome"] != "ok"], nb) + pick(ck, [c for c in cs if c["outcome"] == "ok"], ng)
-        ck.cov.setdefault("schedules_replayed_of_final_states", []).append([len(chosen), len(cs)])
-        jobs.append(pool.submit(gated, ck, "tlc-schedules" + (str(k + 1) if k else ""),
-                                [dict(name="tlc-%d" % i, batch=c["batch"], sched=c["sched"], outcome=c["outcome"]) for i, c in enumerate(chosen)],
-                                tabs, 0, 4 if q else 6, retry=0 if len(tabs) == 1 else 12))
-    jobs.append(pool.submit(gated, ck, "random-schedules", [], ["t1", "t2"], 100 if q else 1000, 2 if q else 6))
+        with LOCK:
+            pred.update(c["outcome"] for c in cs)
+            rng = random.Random(ck.seed * 1000 + k)     # per model run: the sample does not depend on which run finishes first
+            chosen = pick(rng, [c for c in cs if c["outcome"] != "ok"], nb) + pick(rng, [c for c in cs if c["outcome"] == "ok"], ng)
+            ck.cov.setdefault("schedules_replayed_of_model_schedules", {})[cfg] = [len(chosen), len(cs)]
+        gated(ck, "tlc-schedules" + (str(k + 1) if k else ""),
+              [dict(name="tlc-%d" % i, batch=c["batch"], sched=c["sched"], outcome=c["outcome"]) for i, c in enumerate(chosen)],
+              tabs, 0, 4 if q else 6, retry=0 if len(tabs) == 1 else 12)
+
+    def negative_control():
+        h = Locked(ck).run_tlc(["recorder"], "Recorder", "Recorder_hyp.cfg", workers=1, timeout=3000)
+        if h.ok or h.violated != "AllPersistedOnce":
+            raise core.Broken("negative control failed: TLC did not refute AllPersistedOnce for the lock scope the recorder had before the repair "
+                              "(Flush without the mutex): ok=%s violated=%s %s" % (h.ok, h.violated, h.error))
+        ck.note("negative control (Flush without the mutex): AllPersistedOnce refuted by TLC")
+
+    jobs.append(pool.submit(negative_control))
+    jobs += [pool.submit(model_and_replay, k, cfg, w) for k, (cfg, w) in enumerate(cfgs)]
+    jobs.append(pool.submit(gated, ck, "random-schedules", [], ["t1", "t2"], 100 if q else 800, 2 if q else 6))
     errs = []
     for j in jobs:
         try:
@@ -383,3 +386,5 @@ def run(ck):
     pool.shutdown()
     if errs:
         raise errs[0]
+    ck.cov["model_final_states"] = dict(pred)
+    ck.note("model (mutex held across the flush): %d distinct (final state, wait situations) %s" % (sum(pred.values()), dict(pred)))
